@@ -32,6 +32,8 @@ def decode(cls, idx, payload):
         return None, "err keyError"
     except ValueError:
         return None, "err valueError"
+    except Exception as ex:       # any other exception type: still "rejected", but not what the model predicts
+        return None, "err other:" + type(ex).__name__
 
 
 def run(ctx):
